@@ -219,6 +219,21 @@ def _P(c):
     return z3.Not(c.argv('passphrase').isnone)
 
 
+utf8_of = z3.Function('encode_utf8', StrS, BytesS)     # the engine's model of str.encode('utf-8')
+
+
+def _pp_raw(c):
+    """the passphrase exactly as given (bytes or str)"""
+    return c.argv('passphrase').val.z
+
+
+def _pp_bytes(c):
+    """the byte string a KDF must be fed: the passphrase itself, or its UTF-8 encoding when a str was given
+    (documented: `passphrase` is bytes or str; the same encoding on export and import)"""
+    v = c.argv('passphrase').val
+    return utf8_of(v.z) if isinstance(v, VStr) else v.z
+
+
 def _fmt(c, *names):
     return z3.Or([c.arg('format_name') == z3.StringVal(n) for n in names])
 
@@ -231,6 +246,26 @@ def _none(calls):
     return z3.BoolVal(len(calls) == 0)
 
 
+def _alg_identifier_ok(c, got, codec_ret):
+    """AlgorithmIdentifier ::= SEQUENCE { algorithm OID, parameters ANY OPTIONAL } (RFC 5280 4.1.1.2): the key
+    type's OID followed by the parameters the per-algorithm codec returned - omitted only when it returned OMIT"""
+    params = codec_ret.items[0]
+    want = [c.oldv('pkcs8_oid')] + ([] if isinstance(params, VTag) and params.tag == 'class:OMIT' else [params])
+    if not isinstance(got, VTuple) or len(got.items) != len(want):
+        return z3.BoolVal(False)
+    return z3.And([c.eq(a, b) for a, b in zip(got.items, want)])
+
+
+def _private_key_info_ok(c, arg):
+    """RFC 5208 section 5 / RFC 5958: PrivateKeyInfo ::= SEQUENCE { version 0, AlgorithmIdentifier, OCTET STRING }"""
+    p8 = c.calls('encode_pkcs8_private')
+    if len(p8) != 1 or not isinstance(arg, VTuple) or len(arg.items) != 3:
+        return z3.BoolVal(False)
+    ver = arg.items[0]
+    return z3.And(z3.BoolVal(isinstance(ver, VInt)) if not isinstance(ver, VInt) else ver.z == 0,
+                  _alg_identifier_ok(c, arg.items[1], p8[0]['ret']), c.eq(arg.items[2], p8[0]['ret'].items[1]))
+
+
 def pkcs8_post(c):
     """RFC 7468 sections 10/11 (RFC 5958, RFC 5208): an unencrypted PrivateKeyInfo is labelled PRIVATE KEY, an
     EncryptedPrivateKeyInfo is labelled ENCRYPTED PRIVATE KEY; the key is encrypted iff a passphrase was given
@@ -240,12 +275,13 @@ def pkcs8_post(c):
     if len(ders) != 1:
         return z3.Not(_fmt(c, 'pkcs8-der', 'pkcs8-pem'))
     der = ders[0]['ret'].z
-    conj = [z3.Implies(P, _one(encs)), z3.Implies(z3.Not(P), _none(encs))]
+    conj = [z3.Implies(P, _one(encs)), z3.Implies(z3.Not(P), _none(encs)),
+            _private_key_info_ok(c, ders[0]['args'][0])]
     payload = der
     if encs:
         a = encs[0]['args']
         payload = encs[0]['ret'].z
-        conj += [a[0].z == der, a[4].z == c.argv('passphrase').val.z, a[1].z == c.arg('cipher_name'),
+        conj += [a[0].z == der, a[4].z == _pp_raw(c), a[1].z == c.arg('cipher_name'),
                  a[2].z == c.arg('hash_name'), a[3].z == c.arg('pbe_version')]
     pem = [_one(wraps)]
     if wraps:
@@ -268,12 +304,15 @@ def pkcs1_post(c):
     if len(ders) != 1:
         return z3.Not(_fmt(c, 'pkcs1-der', 'pkcs1-pem'))
     der = ders[0]['ret'].z
-    conj = [z3.Implies(P, _one(encs)), z3.Implies(z3.Not(P), _none(encs))]
+    p1 = c.calls('encode_pkcs1_private')
+    conj = [z3.Implies(P, _one(encs)), z3.Implies(z3.Not(P), _none(encs)),
+            # what is DER-encoded is the algorithm's own PKCS#1 / SEC1 structure (RFC 8017 A.1.2, RFC 5915)
+            c.eq(ders[0]['args'][0], p1[0]['ret']) if len(p1) == 1 else z3.BoolVal(False)]
     payload, headers = der, z3.Empty(BytesS)
     if encs and len(hexs) == 1:
         a, r = encs[0]['args'], encs[0]['ret']
         alg, iv, payload = r.items[0].z, r.items[1].z, r.items[2].z
-        conj += [a[0].z == der, a[1].z == c.arg('cipher_name'), a[2].z == c.argv('passphrase').val.z,
+        conj += [a[0].z == der, a[1].z == c.arg('cipher_name'), a[2].z == _pp_raw(c),
                  hexs[0]['args'][0].z == iv]
         upper = z3.Function('upper_b', BytesS, BytesS)
         headers = z3.Concat(B(b'Proc-Type: 4,ENCRYPTED\nDEK-Info: '), alg, B(b','), upper(hexs[0]['ret'].z), B(b'\n\n'))
@@ -330,7 +369,7 @@ def openssh_post(c, want_cases=False):
         ka, ga = kdfs[0]['args'], gets[0]['args']
         conj += [P, z3.Length(salt) == 16, encs[0]['args'][0].z == 0, encs[0]['args'][1].z == z3.Empty(BytesS),
                  # the KDF parameters written to the file are the ones used to derive the key
-                 ka[0].z == c.argv('passphrase').val.z, ka[1].z == salt, ka[2].z == ks + ivs,
+                 ka[0].z == _pp_bytes(c), ka[1].z == salt, ka[2].z == ks + ivs,
                  ka[3].z == c.arg('rounds'),
                  ga[0].z == algb, ga[1].z == z3.Extract(key, 0, ks), z3.Concat(ga[1].z, ga[2].z) == key,
                  container == z3.Concat(B(MAGIC), sstr(algb), sstr(B(b'bcrypt')),
@@ -381,9 +420,9 @@ def export_raises_export_error(c):
                  z3.And(_fmt(c, 'openssh'), P, z3.Not(bcrypt_ok(z3.IntVal(0)))))
 
 
-export_private_key = Spec(
-    'C15', 'public_key', 'SSHKey.export_private_key', self_class='SSHKey',
-    params=dict(format_name='str', passphrase='opt[bytes]', cipher_name='str', hash_name='str', pbe_version='int',
+def _export_private_spec(variant, pp_type): return VSpec(
+    variant, 'C15', 'public_key', 'SSHKey.export_private_key', self_class='SSHKey',
+    params=dict(format_name='str', passphrase=pp_type, cipher_name='str', hash_name='str', pbe_version='int',
                 rounds='int', ignore_few_rounds='bool'),
     classes={'SSHKey': KEY_FIELDS, 'Cipher': {}},
     globals=EXPORT_GLOBALS,
@@ -413,6 +452,10 @@ export_private_key = Spec(
             'KeyEncryptionError': lambda c: _P(c),
             'ValueError': lambda c: z3.BoolVal(len(c.calls('bcrypt.kdf')) == 1)},
     lemmas=export_lemmas, returns='bytes')
+
+
+export_private_key = _export_private_spec('bytes-passphrase', 'opt[bytes]')
+export_private_key_str = _export_private_spec('str-passphrase', 'opt[str]')
 
 
 # ====================================================================== _decode_openssh_private (PROTOCOL.key reader)
@@ -476,7 +519,8 @@ def decode_ssh_private_stub(cx):
     idx = cx.ex.get_field(cx.st, pkt, '_idx')
     from pyvc import bstruct
     new_idx = VInt(bstruct.norm_len(idx.z + z3.Length(g['blob'])))
-    return [Out(ret=VTuple([cx.fresh('any', 'key_params')]), osets=[(pkt, '_idx', new_idx)]),
+    return [Out(ret=VTuple([cx.fresh('any', 'key_param0'), cx.fresh('any', 'key_param1')]),
+                osets=[(pkt, '_idx', new_idx)]),
             Out(exc=VExc('PacketDecodeError'))]
 
 
@@ -493,6 +537,18 @@ def _imp_calls(c):
             c.calls('handler.make_private'), c.calls('key.set_comment'))
 
 
+def _make_args_ok(c, got, decoded):
+    """the constructor gets exactly the decoded parameter tuple, in order; for ssh-rsa (only) it is followed by the
+    caller's unsafe_skip_rsa_key_validation flag (documented parameter of import_private_key)"""
+    if not isinstance(got, VTuple) or len(got.items) not in (len(decoded.items), len(decoded.items) + 1):
+        return z3.BoolVal(False)
+    same = [c.eq(a, b) for a, b in zip(got.items, decoded.items)]
+    is_rsa = G(c, 'alg') == B(b'ssh-rsa')
+    if len(got.items) == len(decoded.items):
+        return z3.And(z3.Not(is_rsa), *same)
+    return z3.And(is_rsa, c.eq(got.items[-1], c.argv('unsafe_skip_rsa_key_validation')), *same)
+
+
 def import_accepts_only_wellformed(c):
     """a key object comes out only of a container with exactly one key, equal check words and 1,2,3.. padding; it is
     built by the handler registered for the algorithm name inside, from the parameters that handler decoded, and
@@ -502,7 +558,7 @@ def import_accepts_only_wellformed(c):
         return z3.BoolVal(False)
     return z3.And(G(c, 'nkeys') == 1, G(c, 'check1') == G(c, 'check2'), _pad_ok(c),
                   gets[0]['args'][0].z == G(c, 'alg'),
-                  c.eq(makes[0]['args'][0].items[0], decs[0]['ret'].items[0]),
+                  _make_args_ok(c, makes[0]['args'][0], decs[0]['ret']),
                   sets[0]['args'][0].z == G(c, 'comment'),
                   c.eq(c.result_v, makes[0]['ret']))
 
@@ -515,14 +571,16 @@ def import_rejects_only_malformed(c):
     if len(gets) == 1 and len(decs) == 0:
         unknown_alg = gets[0]['ret'].isnone
     codec_rejected = z3.BoolVal(len(decs) == 1 and decs[0]['exc'] is not None)
+    handler_refused = z3.BoolVal(len(makes) == 1 and makes[0]['exc'] is not None)
     return z3.Or(G(c, 'nkeys') != 1, G(c, 'check1') != G(c, 'check2'), z3.Not(_pad_ok(c)), unknown_alg,
-                 codec_rejected)
+                 codec_rejected, handler_refused)
 
 
 IMPORT_STUBS = {
     '_public_key_alg_map.get': ret('opt[obj:Handler]', 'handler'),
     'handler.decode_ssh_private': decode_ssh_private_stub,
-    'handler.make_private': ret('obj:Key', 'key'),
+    # PyCA / the handler may refuse the parameters (KeyImportError from the handler, ValueError from PyCA)
+    'handler.make_private': may_raise(ret('obj:Key', 'key'), 'KeyImportError', 'ValueError'),
     'key.set_comment': noop('set_comment'),
 }
 
@@ -532,7 +590,8 @@ decode_openssh_private_plain = VSpec(
     classes=dict(PACKET_CLASSES, Handler={}, Key={}), inline=dict(PACKET_INLINE), truthy=PACKET_TRUTHY,
     stubs=dict(IMPORT_STUBS), setup=openssh_private_setup(False),
     ensures=[('accepts-only-wellformed-container', import_accepts_only_wellformed)],
-    raises={'KeyImportError': import_rejects_only_malformed},
+    raises={'KeyImportError': import_rejects_only_malformed,
+            'ValueError': lambda c: z3.BoolVal(any(m['exc'] is not None for m in c.calls('handler.make_private')))},
     returns='obj:Key')
 
 
@@ -576,6 +635,21 @@ def rfc4716_setup(kind):
             g['comment'] = cm = _fresh_b('g_comment')
             _no_byte(st, cm, *B64_EXCLUDED[:6], ord('"'), ord('\\'), nonempty=True)
             data = z3.Concat(B(b'Comment: '), cm, B(b'\n'), body)
+        elif kind == 'two-headers':
+            # what other RFC 4716 writers (ssh-keygen -e, Tectia) emit: a Subject header before the Comment header
+            # (RFC 4716 3.3.1/3.3.2); each header tag is looked at on its own
+            s1, z0 = _fresh_b('g_subject'), z3.Int(fresh_name('g_subject_last'))
+            _no_byte(st, s1, 10)
+            st.assume(z3.And(z0 >= 0, z0 <= 255, z0 != ord('\\'), *[z0 != w for w in B64_EXCLUDED[:6]]))
+            g['comment'] = cm = _fresh_b('g_comment')
+            _no_byte(st, cm, 10)
+            data = z3.Concat(B(b'Subject: '), s1, z3.Unit(z0), B(b'\nComment: "'), cm, B(b'"\n'), body)
+        elif kind == 'quoted-crlf':
+            # RFC 4716 3.1: lines may end in CR LF (files written on other platforms)
+            g['comment'] = cm = _fresh_b('g_comment')
+            _no_byte(st, cm, 10)
+            body = z3.Concat(g['l1'], B(b'\r\n'), g['rest'])
+            data = z3.Concat(B(b'Comment: "'), cm, B(b'"\r\n'), body)
         else:
             g['comment'] = None
             data = body
@@ -614,6 +688,8 @@ parse_rfc4716_quoted = _rfc4716_spec('quoted', 3)
 parse_rfc4716_continued = _rfc4716_spec('continued', 4)
 parse_rfc4716_unquoted = _rfc4716_spec('unquoted', 3)
 parse_rfc4716_nocomment = _rfc4716_spec('none', 2)
+parse_rfc4716_two_headers = _rfc4716_spec('two-headers', 4)
+parse_rfc4716_crlf = _rfc4716_spec('quoted-crlf', 3)
 
 
 # ---------------------------------------------------------------------- _parse_pem
@@ -632,6 +708,15 @@ def pem_setup(kind):
             _no_byte(st, g['iv'], *WS6, ord(':'), nonempty=True)       # upper-case hex digits
             g['tail'] = z3.Concat(B(b'\n'), body)
             data = z3.Concat(B(b'Proc-Type: 4,ENCRYPTED\nDEK-Info: '), g['alg'], B(b','), g['iv'], B(b'\n'), g['tail'])
+            g['headers'] = {b'Proc-Type': B(b'4,ENCRYPTED'), b'DEK-Info': z3.Concat(g['alg'], B(b','), g['iv'])}
+        elif kind == 'encrypted-crlf':
+            g['alg'], g['iv'] = _fresh_b('g_dek_alg'), _fresh_b('g_hex_iv')
+            _no_byte(st, g['alg'], *WS6, ord(':'), nonempty=True)
+            _no_byte(st, g['iv'], *WS6, ord(':'), nonempty=True)
+            body = z3.Concat(g['l1'], B(b'\r\n'), g['rest'])
+            g['tail'] = z3.Concat(B(b'\r\n'), body)
+            data = z3.Concat(B(b'Proc-Type: 4,ENCRYPTED\r\nDEK-Info: '), g['alg'], B(b','), g['iv'], B(b'\r\n'),
+                             g['tail'])
             g['headers'] = {b'Proc-Type': B(b'4,ENCRYPTED'), b'DEK-Info': z3.Concat(g['alg'], B(b','), g['iv'])}
         else:
             g['tail'] = data = body
@@ -670,6 +755,7 @@ def _pem_spec(kind, unroll):
 
 parse_pem_encrypted = _pem_spec('encrypted', 3)
 parse_pem_plain = _pem_spec('plain', 1)
+parse_pem_encrypted_crlf = _pem_spec('encrypted-crlf', 3)
 
 
 # ====================================================================== SSHKey.export_public_key
@@ -745,8 +831,14 @@ def export_public_post(c):
             conj.append(c.eq(bits[0]['args'][0], p8[0]['ret'].items[1]))
             top = ders[0]['args'][0]
             conj.append(z3.BoolVal(isinstance(top, VTuple) and len(top.items) == 2 and top.items[1] is bits[0]['ret']))
+            # RFC 5280 4.1: SubjectPublicKeyInfo ::= SEQUENCE { AlgorithmIdentifier, BIT STRING }
+            if isinstance(top, VTuple) and len(top.items) == 2:
+                conj.append(_alg_identifier_ok(c, top.items[0], p8[0]['ret']))
         else:
             conj.append(z3.Not(fmt('pkcs8-der', 'pkcs8-pem')))
+            p1 = c.calls('encode_pkcs1_public')
+            # PKCS#1 RSAPublicKey etc.: the algorithm's own structure is what gets DER-encoded
+            conj.append(c.eq(ders[0]['args'][0], p1[0]['ret']) if len(p1) == 1 else z3.BoolVal(False))
     else:
         conj.append(z3.Not(fmt('pkcs1-der', 'pkcs1-pem', 'pkcs8-der', 'pkcs8-pem')))
     return z3.And(conj)
@@ -1060,7 +1152,8 @@ def match_next_setup(kind, kt, public):
         st.env['keytype'], st.env['public'] = VBytes(kt), VBool(public)
         st.inputs['keytype'], st.inputs['public'] = st.env['keytype'], st.env['public']
         g = {'rest': _fresh_b('g_rest'), 'kind': kind}
-        if kind in ('pem-named', 'pem-bare', 'pem-after-junk'):
+        if kind in ('pem-named', 'pem-bare', 'pem-after-junk', 'pem-named-crlf'):
+            nl = B(b'\r\n') if kind == 'pem-named-crlf' else B(b'\n')
             if kind == 'pem-bare':
                 g['pem_name'] = z3.Empty(BytesS)
                 first = z3.Concat(B(b'-----BEGIN '), B(kt), B(b'-----'))
@@ -1078,8 +1171,8 @@ def match_next_setup(kind, kt, public):
                 _no_byte(st, j1, 10)
                 junk = z3.Concat(z3.Unit(a0), j1, z3.Unit(z0), B(b'\n'))
             g['line'] = first
-            g['start'] = bstruct.norm_len(z3.Length(junk) + z3.Length(first) + 1)
-            data = z3.Concat(junk, first, B(b'\n'), g['rest'])
+            g['start'] = bstruct.norm_len(z3.Length(junk) + z3.Length(first) + z3.Length(nl))
+            data = z3.Concat(junk, first, nl, g['rest'])
         elif kind == 'rfc4716':
             g['line'] = first = B(b'---- BEGIN SSH2 PUBLIC KEY ----')
             g['start'] = z3.IntVal(len(b'---- BEGIN SSH2 PUBLIC KEY ----') + 1)
@@ -1096,6 +1189,13 @@ def match_next_setup(kind, kt, public):
             data = z3.Concat(g['line'], B(b'\n'), g['rest'])
         elif kind == 'der':
             data = z3.Concat(B(b'\x30'), g['rest'])
+        elif kind == 'der-garbage':
+            # starts like a DER SEQUENCE but is not one (the stub below always raises ASN1DecodeError): the text
+            # scan runs next and finds nothing in this single unterminated line
+            l1, z0 = _fresh_b('g_line'), z3.Int(fresh_name('g_linez'))
+            st.assume(z3.And(z0 >= 0, z0 <= 255, *[z0 != w for w in WS6]))
+            _no_byte(st, l1, 10)
+            data = z3.Concat(B(b'\x30'), l1, z3.Unit(z0))
         g['data'] = data
         st.env['data'] = VBytes(data)
         st.inputs['data'] = st.env['data']
@@ -1113,6 +1213,10 @@ def match_next_post(c):
     r = c.result_v
     mb, pp, p4, po, dd = (c.calls('match_base64'), c.calls('_parse_pem'), c.calls('_parse_rfc4716'),
                           c.calls('_parse_openssh'), c.calls('der_decode_partial'))
+    if kind == 'der-garbage':
+        ok = isinstance(r, VTuple) and len(r.items) == 3 and r.items[0] is VNone and \
+            isinstance(r.items[1], VTuple) and not r.items[1].items and len(dd) == 1 and not (mb or pp or p4 or po)
+        return z3.And(c.eq(r.items[2], VInt(z3.Length(G(c, 'data'))))) if ok else z3.BoolVal(False)
     if kind == 'der':
         if not (_tag_is(c, 'der') and len(dd) == 1 and not (mb or pp or p4 or po)):
             return z3.BoolVal(False)
@@ -1141,8 +1245,8 @@ def match_next_post(c):
 MATCH_STUBS = {
     'der_decode_partial': ret('tuple[any,int]', 'der_value'),
     'match_base64': may_raise(ret('tuple[bytes,int]', 'armour_body'), 'ValueError'),
-    '_parse_pem': ret('tuple[any,bytes]', 'pem'),
-    '_parse_rfc4716': ret('tuple[opt[bytes],bytes]', 'rfc4716'),
+    '_parse_pem': may_raise(ret('tuple[any,bytes]', 'pem'), 'KeyImportError'),              # contracts above
+    '_parse_rfc4716': may_raise(ret('tuple[opt[bytes],bytes]', 'rfc4716'), 'KeyImportError'),
     '_parse_openssh': may_raise(ret('tuple[bytes,opt[bytes],bytes]', 'openssh'), 'KeyImportError'),
 }
 
@@ -1152,12 +1256,14 @@ def _match_spec(kind, keytype, public, unroll):
         f'{kind},{keytype.decode().replace(" ", "-")},{"public" if public else "private"}',
         'C15', 'public_key', '_match_next', params=dict(data='bytes', keytype='bytes', public='bool'),
         stubs=dict(MATCH_STUBS, **({'_parse_openssh': ret('tuple[bytes,opt[bytes],bytes]', 'openssh')}
-                                   if kind == 'openssh-line' else {})),
+                                   if kind == 'openssh-line' else
+                                   {'der_decode_partial': lambda cx: [Out(exc=VExc('ASN1DecodeError'))]}
+                                   if kind == 'der-garbage' else {})),
         loops={1: LoopSpec(unroll=unroll)},
         setup=match_next_setup(kind, keytype, public),
         ensures=[('first-line-selects-the-decoder', match_next_post)],
         raises={'KeyImportError': lambda c: z3.BoolVal(
-            len(c.calls('match_base64')) == 1 and c.calls('match_base64')[0]['exc'] is not None)},
+            any(x['exc'] is not None for k in ('match_base64', '_parse_pem', '_parse_rfc4716') for x in c.calls(k)))},
         returns='tuple[opt[str],any,opt[int]]')
 
 
@@ -1167,6 +1273,7 @@ match_specs = [
     _match_spec('pem-bare', b'CERTIFICATE', True, 1), _match_spec('pem-after-junk', b'PRIVATE KEY', False, 2),
     _match_spec('rfc4716', b'PUBLIC KEY', True, 1), _match_spec('openssh-line', b'PUBLIC KEY', True, 1),
     _match_spec('der', b'PRIVATE KEY', False, 1), _match_spec('der', b'PUBLIC KEY', True, 1),
+    _match_spec('pem-named-crlf', b'PRIVATE KEY', False, 1), _match_spec('der-garbage', b'PRIVATE KEY', False, 1),
 ]
 
 
@@ -1226,7 +1333,7 @@ def import_enc_accepts(c):
     kw = kdfs[0]['kwargs']
     return z3.And(_P(c), G(c, 'kdf') == B(b'bcrypt'), z3.Length(G(c, 'kd_tail')) == 0,
                   params[0]['args'][0].z == G(c, 'cipher'),
-                  ka[0].z == c.argv('passphrase').val.z, ka[1].z == G(c, 'salt'), ka[2].z == ks + ivs,
+                  ka[0].z == _pp_bytes(c), ka[1].z == G(c, 'salt'), ka[2].z == ks + ivs,
                   ka[3].z == G(c, 'rounds'), c.truthy(kw['ignore_few_rounds']) if 'ignore_few_rounds' in kw else False,
                   ga[0].z == G(c, 'cipher'), z3.Concat(ga[1].z, ga[2].z) == key, ga[1].z == z3.Extract(key, 0, ks),
                   da[0].z == 0, da[1].z == z3.Empty(BytesS), da[2].z == G(c, 'stored'), da[3].z == 0,
@@ -1263,9 +1370,9 @@ def wrong_passphrase_rejected(c):
     return z3.And(z3.BoolVal(len(decs) == 1 and decs[0]['ret'] is not VNone), G(c, 'check1') == G(c, 'check2'))
 
 
-decode_openssh_private_encrypted = VSpec(
-    'encrypted', 'C15', 'public_key', '_decode_openssh_private',
-    params=dict(data='bytes', passphrase='opt[bytes]', unsafe_skip_rsa_key_validation='opt[bool]'),
+def _import_enc_spec(variant, pp_type): return VSpec(
+    variant, 'C15', 'public_key', '_decode_openssh_private',
+    params=dict(data='bytes', passphrase=pp_type, unsafe_skip_rsa_key_validation='opt[bool]'),
     classes=dict(PACKET_CLASSES, Handler={}, Key={}, Cipher={}), inline=dict(PACKET_INLINE), truthy=PACKET_TRUTHY,
     globals={k: v for k, v in EXPORT_GLOBALS.items() if k != 'OMIT'},
     stubs=dict(IMPORT_STUBS, **{
@@ -1279,8 +1386,16 @@ decode_openssh_private_encrypted = VSpec(
     always=[('wrong-passphrase-never-yields-a-key', wrong_passphrase_rejected)],
     raises={'KeyEncryptionError': import_enc_key_error, 'KeyImportError': import_enc_import_error,
             # error-message formatting decodes the file's cipher / kdf name as ASCII (only on the reject paths)
-            'UnicodeDecodeError': lambda c: z3.And(_P(c), z3.BoolVal(len(c.calls('bcrypt.kdf')) == 0))},
+            # helper-level behaviour (not a property clause): the error-message formatting decodes the file's cipher /
+            # kdf name as ASCII on the reject paths; UnicodeDecodeError is a ValueError and the API entry point
+            # import_private_key (contract below) turns every ValueError into KeyImportError
+            'UnicodeDecodeError': lambda c: z3.And(_P(c), z3.BoolVal(len(c.calls('bcrypt.kdf')) == 0)),
+            'ValueError': lambda c: z3.BoolVal(any(m['exc'] is not None for m in c.calls('handler.make_private')))},
     returns='obj:Key')
+
+
+decode_openssh_private_encrypted = _import_enc_spec('encrypted', 'opt[bytes]')
+decode_openssh_private_encrypted_str = _import_enc_spec('encrypted,str-passphrase', 'opt[str]')
 
 
 # ====================================================================== decode_ssh_public_key (RFC 4253 6.6 blob)
@@ -1466,8 +1581,16 @@ rsa_dec_pub = _codec_decode('rsa', 'RSAKey', 'decode_ssh_public', INTS('n', 'e')
 rsa_dec_priv = _codec_decode('rsa', 'RSAKey', 'decode_ssh_private', INTS('n', 'e', 'd', 'iqmp', 'p', 'q'),
                              _mp('n', 'e', 'd', 'iqmp', 'p', 'q'),
                              lambda g: [g['n'], g['e'], g['d'], g['p'], g['q'], g['d'] % (g['p'] - 1),
-                                        g['d'] % (g['q'] - 1), g['iqmp']],
-                             requires=lambda g: z3.And(g['p'] >= 2, g['q'] >= 2))     # primes
+                                        g['d'] % (g['q'] - 1), g['iqmp']])
+# No assumption on the (possibly hostile) field values: RFC 8017 3.2 makes p and q primes, so a blob with p < 2 or
+# q < 2 is malformed and must be rejected the way every other malformed blob is (PacketDecodeError, which the
+# container reader maps to KeyImportError) - in particular d mod (p-1) must never divide by zero.
+rsa_dec_priv.python_mod = True      # exact Python floor-mod for divisors of unknown sign (engine opt-in)
+rsa_dec_priv.raises = {'PacketDecodeError': lambda c: z3.Or(G(c, 'p') < 2, G(c, 'q') < 2)}
+_rsa_same = rsa_dec_priv.ensures[0][1]
+rsa_dec_priv.ensures[0] = ('same-parameters-as-encoded',
+                           lambda c: z3.Implies(z3.And(G(c, 'p') >= 2, G(c, 'q') >= 2), _rsa_same(c)))
+rsa_dec_priv.ensures.append(('only-prime-sized-factors-accepted', lambda c: z3.And(G(c, 'p') >= 2, G(c, 'q') >= 2)))
 # --- DSA: p, q, g, y [, x]  (RFC 4253 6.6)
 DSA_CK = dict(p='int', q='int', g='int', y='int', x='opt[int]')
 dsa_enc_pub = _codec_encode('dsa', '_DSAKey', 'encode_ssh_public', DSA_CK, _mp('p', 'q', 'g', 'y'))
@@ -1509,3 +1632,349 @@ for _sp in list(Spec.registry):
         _sp.max_solver_checks = 400
         _sp.max_struct_seconds = 240
         _sp.length_abstraction = True
+
+
+# ====================================================================== _parse_openssh (one-line public format)
+# sshd(8) AUTHORIZED_KEYS: "<keytype> <base64 key> [comment]" - the comment is the REST of the line.  Format limit
+# (DESIGN C15 (e)): a comment round-trips iff it has no newline and no leading / trailing blank; blanks and tabs
+# inside it are part of the comment and must survive.
+def _sym_map(name, vt='any'):
+    kt = 'bytes'
+    return VMap(z3.Const(name + '$dom', z3.ArraySort(sort_of(kt), BoolS)),
+                z3.Const(name + '$val', z3.ArraySort(sort_of(kt), sort_of(vt))), kt, vt)
+
+
+def _token(st, name):
+    """a non-empty run of non-blank bytes"""
+    t = _fresh_b(name)
+    _no_byte(st, t, *WS6, nonempty=True)
+    return t
+
+
+def parse_openssh_setup(kind):
+    def setup(ex, st):
+        g = {'alg': _token(st, 'g_alg'), 'b64': _token(st, 'g_b64'), 'kind': kind}
+        w1, w2 = _token(st, 'g_word1'), _token(st, 'g_word2')
+        g['comment'] = {'none': None, 'word': w1, 'two-blanks': z3.Concat(w1, B(b'  '), w2),
+                        'tab': z3.Concat(w1, B(b'\t'), w2), 'one-blank': z3.Concat(w1, B(b' '), w2)}[kind]
+        line = z3.Concat(g['alg'], B(b' '), g['b64'])
+        if g['comment'] is not None:
+            line = z3.Concat(line, B(b' '), g['comment'])
+        st.env['data'] = VBytes(line)
+        st.inputs['data'] = st.env['data']
+        st.heap['__c15__'] = g
+    return setup
+
+
+def parse_openssh_post(c):
+    calls = c.calls('binascii.a2b_base64')
+    r = c.result_v
+    if len(calls) != 1 or not isinstance(r, VTuple) or len(r.items) != 3:
+        return z3.BoolVal(False)
+    cm = G(c, 'comment')
+    return z3.And(c.eq(r.items[0], VBytes(G(c, 'alg'))),
+                  c.is_none(r.items[1]) if cm is None else c.eq(r.items[1], VBytes(cm)),
+                  calls[0]['args'][0].z == G(c, 'b64'), c.eq(r.items[2], calls[0]['ret']))
+
+
+def _known_alg(c):
+    return z3.Or(z3.Select(PK_ALG_MAP.dom, G(c, 'alg')), z3.Select(CERT_ALG_MAP.dom, G(c, 'alg')))
+
+
+PK_ALG_MAP, CERT_ALG_MAP = _sym_map('public_key_alg_map'), _sym_map('certificate_alg_map')
+
+
+def _parse_openssh_spec(kind):
+    return VSpec(
+        kind, 'C15', 'public_key', '_parse_openssh', params={'data': 'bytes'},
+        globals={'_public_key_alg_map': PK_ALG_MAP, '_certificate_alg_map': CERT_ALG_MAP},
+        stubs={'binascii.a2b_base64': may_raise(ret('bytes', 'decoded'), 'binascii.Error')},
+        setup=parse_openssh_setup(kind),
+        ensures=[('algorithm-blob-and-verbatim-comment', parse_openssh_post),
+                 ('only-registered-algorithms', _known_alg)],
+        raises={'KeyImportError': lambda c: z3.Or(z3.Not(_known_alg(c)), z3.BoolVal(
+            any(x['exc'] is not None for x in c.calls('binascii.a2b_base64'))))},
+        returns='tuple[bytes,opt[bytes],bytes]')
+
+
+parse_openssh_specs = [_parse_openssh_spec(k) for k in ('none', 'word', 'one-blank', 'two-blanks', 'tab')]
+
+
+# ====================================================================== import dispatch layer
+# Which decoder sees which armour body, with which arguments; what happens to the parsed comment; mismatches.
+def _mn_result(cx, fmt, info):
+    return VTuple([VStr(fmt) if fmt is not None else VNone, VTuple(info), cx.fresh('int', 'end')])
+
+
+def match_next_stub(cx):
+    """callee contract of _match_next (proved above on the exporter families): one of the five shapes"""
+    f = cx.fresh
+    outs = [_mn_result(cx, 'der', [f('any', 'der_value')]),
+            _mn_result(cx, 'pem', [f('bytes', 'pem_name'), f('any', 'pem_headers'), f('bytes', 'pem_data')]),
+            _mn_result(cx, None, [])]
+    if cx.kwargs.get('public') is not None:
+        outs += [_mn_result(cx, 'openssh', [f('bytes', 'line_alg'), f('opt[bytes]', 'line_comment'), f('bytes', 'blob')]),
+                 _mn_result(cx, 'rfc4716', [f('opt[bytes]', 'hdr_comment'), f('bytes', 'blob')])]
+    return [Out(ret=o) for o in outs] + [Out(exc=VExc('KeyImportError'))]
+
+
+match_next_stub.modifies = ()
+KEYOBJ = {'Key': {'algorithm': 'bytes'}}
+_raising = lambda t, label: may_raise(ret(t, label), 'KeyImportError')
+
+
+def _first(c, key):
+    xs = c.calls(key)
+    return xs[0] if xs else None
+
+
+def decode_public_post(c):
+    mns = c.calls('_match_next')
+    r = c.result_v
+    if not mns or not isinstance(r, VTuple) or len(r.items) != 2:
+        return z3.BoolVal(False)
+    m0 = mns[0]
+    fmt = concrete_str(m0['ret'].items[0]) if m0['ret'].items[0] is not VNone else None
+    info = m0['ret'].items[1].items
+    conj = [c.eq(m0['args'][0], c.argv('data')), c.eq(m0['args'][1], VBytes(b'PUBLIC KEY')),
+            c.truthy(m0['kwargs']['public']) if 'public' in m0['kwargs'] else False,
+            # `end`: where the block that produced the key stops (so that list readers continue after it)
+            c.eq(r.items[1], (mns[1] if fmt is None and len(mns) == 2 else m0)['ret'].items[2])]
+    key = r.items[0]
+    sets = c.calls('key.set_comment')
+
+    def only(name, *args):
+        x = c.calls(name)
+        return z3.And(z3.BoolVal(len(x) == 1), *[c.eq(a, b) for a, b in zip(x[0]['args'], args)],
+                      c.eq(key, x[0]['ret'])) if len(x) == 1 and len(x[0]['args']) == len(args) else z3.BoolVal(False)
+    if fmt == 'der':
+        conj += [only('_decode_der_public', info[0]), _none(sets)]
+    elif fmt == 'pem':
+        conj += [only('_decode_pem_public', info[0], info[2]), _none(sets)]
+    elif fmt in ('openssh', 'rfc4716'):
+        blob, comment = info[-1], info[-2]
+        conj += [only('decode_ssh_public_key', blob),
+                 # the comment found in the file is attached to the key, exactly once, verbatim (None -> no comment)
+                 z3.BoolVal(len(sets) == 1) if True else None]
+        if len(sets) == 1:
+            conj += [c.eq(sets[0]['args'][0], comment), z3.BoolVal(sets[0]['recv'] is key or
+                                                                   getattr(sets[0]['recv'], 'addr', 0) == getattr(key, 'addr', 1))]
+        if fmt == 'openssh' and isinstance(key, VRef):
+            # the algorithm token in front of the base64 text must name the algorithm inside the blob
+            conj.append(info[0].z == c.new('algorithm', key))
+    else:
+        # no public key block: a private key file is accepted as a source of the public key (documented)
+        if len(mns) != 2:
+            return z3.BoolVal(False)
+        m1 = mns[1]
+        conj += [c.eq(m1['args'][0], c.argv('data')), c.eq(m1['args'][1], VBytes(b'PRIVATE KEY')),
+                 z3.BoolVal('public' not in m1['kwargs'])]
+        f1 = concrete_str(m1['ret'].items[0]) if m1['ret'].items[0] is not VNone else None
+        i1 = m1['ret'].items[1].items
+        osp, dp = c.calls('_decode_openssh_public'), c.calls('_decode_private')
+        if osp:
+            conj += [z3.BoolVal(f1 == 'pem' and len(osp) == 1 and not dp), i1[0].z == B(b'OPENSSH') if f1 == 'pem' else False,
+                     c.eq(osp[0]['args'][0], i1[2]) if f1 == 'pem' else False, c.eq(key, osp[0]['ret'])]
+        elif len(dp) == 1:
+            conj += [z3.Not(i1[0].z == B(b'OPENSSH')) if f1 == 'pem' else True,
+                     c.eq(dp[0]['args'][0], c.argv('data')), c.is_none(dp[0]['args'][1])]
+            conv = c.calls('key.convert_to_public')
+            pk = dp[0]['ret'].items[0]
+            conj += [z3.Implies(c.is_none(pk), c.is_none(key))]
+            if conv:
+                conj += [c.eq(key, conv[0]['ret']), z3.Not(c.is_none(pk))]
+            else:
+                conj += [c.is_none(pk)]
+        else:
+            return z3.BoolVal(False)
+    return z3.And([x for x in conj if x is not None])
+
+
+def decode_public_rejects(c):
+    """KeyImportError: a callee rejected the block, or the one-line algorithm token contradicts the blob"""
+    callee = any(x['exc'] is not None for x in c.calls())
+    keys = c.calls('decode_ssh_public_key')
+    m0 = _first(c, '_match_next')
+    if callee or m0 is None or m0['ret'] is None:
+        return z3.BoolVal(callee)
+    if len(keys) == 1 and keys[0]['exc'] is None and concrete_str(m0['ret'].items[0]) == 'openssh':
+        return m0['ret'].items[1].items[0].z != c.new('algorithm', keys[0]['ret'])
+    return z3.BoolVal(False)
+
+
+decode_public = Spec(
+    'C15', 'public_key', '_decode_public', params={'data': 'bytes'}, classes=dict(KEYOBJ),
+    stubs={'_match_next': match_next_stub,
+           '_decode_der_public': _raising('obj:Key', 'key'), '_decode_pem_public': _raising('obj:Key', 'key'),
+           'decode_ssh_public_key': _raising('obj:Key', 'key'), '_decode_openssh_public': _raising('obj:Key', 'key'),
+           '_decode_private': _raising('tuple[opt[obj:Key],opt[int]]', 'private'),
+           'key.set_comment': noop('set_comment'), 'key.convert_to_public': ret('obj:Key', 'public_key')},
+    ensures=[('decoder-by-format-comment-attached-algorithm-checked', decode_public_post)],
+    raises={'KeyImportError': decode_public_rejects}, returns='tuple[opt[obj:Key],opt[int]]')
+
+
+# ---------------------------------------------------------------------- _decode_private
+def decode_private_post(c):
+    m0 = _first(c, '_match_next')
+    r = c.result_v
+    if m0 is None or not isinstance(r, VTuple) or len(r.items) != 2:
+        return z3.BoolVal(False)
+    fmt = concrete_str(m0['ret'].items[0]) if m0['ret'].items[0] is not VNone else None
+    info = m0['ret'].items[1].items
+    pp, unsafe = c.argv('passphrase'), c.argv('unsafe_skip_rsa_key_validation')
+    conj = [c.eq(m0['args'][0], c.argv('data')), c.eq(m0['args'][1], VBytes(b'PRIVATE KEY')),
+            z3.BoolVal('public' not in m0['kwargs']), c.eq(r.items[1], m0['ret'].items[2])]
+    der, pem = c.calls('_decode_der_private'), c.calls('_decode_pem_private')
+    if fmt == 'der':
+        want = [info[0], pp, unsafe]
+        conj += [z3.BoolVal(len(der) == 1 and not pem)] + ([c.eq(a, b) for a, b in zip(der[0]['args'], want)] +
+                                                           [c.eq(r.items[0], der[0]['ret'])] if len(der) == 1 else [])
+    elif fmt == 'pem':
+        want = [info[0], info[1], info[2], pp, unsafe]
+        conj += [z3.BoolVal(len(pem) == 1 and not der)] + ([c.eq(a, b) for a, b in zip(pem[0]['args'], want)] +
+                                                           [c.eq(r.items[0], pem[0]['ret'])] if len(pem) == 1 else [])
+    else:
+        conj += [z3.BoolVal(not der and not pem), c.is_none(r.items[0])]
+    return z3.And(conj)
+
+
+_callee_raised = lambda c: z3.BoolVal(any(x['exc'] is not None for x in c.calls()))
+_priv_callee = lambda label: may_raise(ret('obj:Key', label), 'KeyImportError', 'KeyEncryptionError')
+decode_private = Spec(
+    'C15', 'public_key', '_decode_private',
+    params=dict(data='bytes', passphrase='opt[bytes]', unsafe_skip_rsa_key_validation='opt[bool]'),
+    classes=dict(KEYOBJ),
+    stubs={'_match_next': match_next_stub, '_decode_der_private': _priv_callee('key'),
+           '_decode_pem_private': _priv_callee('key')},
+    ensures=[('decoder-by-format-arguments-forwarded', decode_private_post)],
+    raises={'KeyImportError': _callee_raised, 'KeyEncryptionError': _callee_raised},
+    returns='tuple[opt[obj:Key],opt[int]]')
+
+
+# ---------------------------------------------------------------------- _decode_pem_public / _decode_pem_private
+def decode_pem_public_post(c):
+    """RFC 7468 section 13: the bare label (PUBLIC KEY) is a SubjectPublicKeyInfo; `<ALG> PUBLIC KEY` is the
+    algorithm's own PKCS#1-style structure, decoded by the handler registered for <ALG>"""
+    dd, p1, p8 = c.calls('der_decode'), c.calls('_decode_pkcs1_public'), c.calls('_decode_pkcs8_public')
+    if len(dd) != 1:
+        return z3.BoolVal(False)
+    bare = z3.Length(c.arg('pem_name')) == 0
+    conj = [c.eq(dd[0]['args'][0], c.argv('data'))]
+    if p8:
+        conj += [bare, z3.BoolVal(len(p8) == 1 and not p1), c.eq(p8[0]['args'][0], dd[0]['ret']),
+                 c.eq(c.result_v, p8[0]['ret'])]
+    elif len(p1) == 1:
+        conj += [z3.Not(bare), c.eq(p1[0]['args'][0], c.argv('pem_name')), c.eq(p1[0]['args'][1], dd[0]['ret']),
+                 c.eq(c.result_v, p1[0]['ret'])]
+    else:
+        return z3.BoolVal(False)
+    return z3.And(conj)
+
+
+decode_pem_public = Spec(
+    'C15', 'public_key', '_decode_pem_public', params=dict(pem_name='bytes', data='bytes'), classes=dict(KEYOBJ),
+    stubs={'der_decode': may_raise(ret('any', 'der_value'), 'ASN1DecodeError'),
+           '_decode_pkcs1_public': _raising('obj:Key', 'key'), '_decode_pkcs8_public': _raising('obj:Key', 'key')},
+    ensures=[('label-selects-pkcs1-or-spki-decoder', decode_pem_public_post)],
+    raises={'KeyImportError': _callee_raised}, returns='obj:Key')
+
+
+def pem_private_setup(kind):
+    def setup(ex, st):
+        g = {'kind': kind}
+        if kind == 'dek':
+            # header map as _parse_pem returns it for the RFC 1421 headers (contract above)
+            g['alg'], g['iv'] = _fresh_b('g_dek_alg'), _fresh_b('g_hex_iv')
+            _no_byte(st, g['alg'], ord(','), nonempty=True)
+            _no_byte(st, g['iv'], ord(','), nonempty=True)
+            hd = VDict({b'Proc-Type': VBytes(b'4,ENCRYPTED'), b'DEK-Info': VBytes(z3.Concat(g['alg'], B(b','), g['iv']))})
+        elif kind == 'dek-malformed':
+            g['alg'] = _fresh_b('g_dek_alg')
+            _no_byte(st, g['alg'], ord(','))
+            hd = VDict({b'Proc-Type': VBytes(b'4,ENCRYPTED'), b'DEK-Info': VBytes(g['alg'])})     # no ",<iv>"
+        else:
+            hd = VDict({})
+        st.env['headers'] = st.alloc(hd)
+        st.inputs['headers'] = st.env['headers']
+        st.heap['__c15__'] = g
+    return setup
+
+
+def decode_pem_private_post(c):
+    """Decision table (RFC 7468 10/11, RFC 1421 4.6.1, PROTOCOL.key):
+       OPENSSH           -> the container reader gets (data, passphrase, flag)
+       Proc-Type header  -> PKCS#1 legacy encryption: pkcs1_decrypt(data, DEK alg, unhex(DEK iv), passphrase) first
+       ENCRYPTED         -> EncryptedPrivateKeyInfo: pkcs8_decrypt(der, passphrase), then PrivateKeyInfo
+       bare              -> PrivateKeyInfo;   <ALG> -> the algorithm's own structure via the handler for <ALG>"""
+    name, pp, unsafe = c.arg('pem_name'), c.argv('passphrase'), c.argv('unsafe_skip_rsa_key_validation')
+    kind = G(c, 'kind')
+    osh, d1, d8, dd, u1, u8, hx = (c.calls(k) for k in ('_decode_openssh_private', '_decode_pkcs1_private',
+                                                         '_decode_pkcs8_private', 'der_decode', 'pkcs1_decrypt',
+                                                         'pkcs8_decrypt', 'binascii.a2b_hex'))
+    is_osh, is_enc, bare = name == B(b'OPENSSH'), name == B(b'ENCRYPTED'), z3.Length(name) == 0
+    if osh:
+        return z3.And(is_osh, z3.BoolVal(len(osh) == 1 and not (d1 or d8 or dd or u1 or u8)),
+                      c.eq(osh[0]['args'][0], c.argv('data')), c.eq(osh[0]['args'][1], pp),
+                      c.eq(osh[0]['args'][2], unsafe), c.eq(c.result_v, osh[0]['ret']))
+    if len(dd) != 1:
+        return z3.BoolVal(False)
+    conj = [z3.Not(is_osh)]
+    body = c.argv('data')
+    if kind == 'dek':
+        if len(u1) != 1 or len(hx) != 1:
+            return z3.BoolVal(False)
+        a = u1[0]['args']
+        conj += [z3.Not(pp.isnone), c.eq(a[0], c.argv('data')), a[1].z == G(c, 'alg'),
+                 hx[0]['args'][0].z == G(c, 'iv'), c.eq(a[2], hx[0]['ret']), c.eq(a[3], pp.val)]
+        body = u1[0]['ret']
+    else:
+        conj.append(z3.BoolVal(not u1))
+    conj.append(c.eq(dd[0]['args'][0], body))
+    keydata = dd[0]['ret']
+    if u8:
+        conj += [is_enc, z3.Not(pp.isnone), z3.BoolVal(len(u8) == 1), c.eq(u8[0]['args'][0], dd[0]['ret']),
+                 c.eq(u8[0]['args'][1], pp.val)]
+        keydata = u8[0]['ret']
+    else:
+        conj.append(z3.Not(is_enc))
+    if d8:
+        conj += [z3.Or(bare, is_enc), z3.BoolVal(len(d8) == 1 and not d1), c.eq(d8[0]['args'][0], keydata),
+                 c.eq(d8[0]['args'][1], unsafe), c.eq(c.result_v, d8[0]['ret'])]
+    elif len(d1) == 1:
+        conj += [z3.Not(z3.Or(bare, is_enc)), c.eq(d1[0]['args'][0], c.argv('pem_name')), c.eq(d1[0]['args'][1], keydata),
+                 c.eq(d1[0]['args'][2], unsafe), c.eq(c.result_v, d1[0]['ret'])]
+    else:
+        return z3.BoolVal(False)
+    return z3.And(conj)
+
+
+def decode_pem_private_rejects(c):
+    pp = c.argv('passphrase')
+    kind = G(c, 'kind')
+    enc_label = c.arg('pem_name') == B(b'ENCRYPTED')
+    reasons = [_callee_raised(c), z3.And(pp.isnone, z3.Or(enc_label, z3.BoolVal(kind in ('dek', 'dek-malformed')))),
+               z3.BoolVal(kind == 'dek-malformed')]
+    return z3.And(c.arg('pem_name') != B(b'OPENSSH'), z3.Or(reasons)) if not c.calls('_decode_openssh_private') \
+        else _callee_raised(c)
+
+
+def _pem_private_spec(kind):
+    return VSpec(
+        kind, 'C15', 'public_key', '_decode_pem_private',
+        params=dict(pem_name='bytes', headers='any', data='bytes', passphrase='opt[bytes]',
+                    unsafe_skip_rsa_key_validation='opt[bool]'),
+        classes=dict(KEYOBJ), setup=pem_private_setup(kind),
+        stubs={'_decode_openssh_private': _priv_callee('key'),
+               'binascii.a2b_hex': may_raise(ret('bytes', 'iv'), 'binascii.Error'),
+               'pkcs1_decrypt': may_raise(ret('bytes', 'decrypted'), 'KeyEncryptionError'),
+               'pkcs8_decrypt': may_raise(ret('any', 'private_key_info'), 'KeyEncryptionError'),
+               'der_decode': may_raise(ret('any', 'der_value'), 'ASN1DecodeError'),
+               '_decode_pkcs1_private': _raising('obj:Key', 'key'), '_decode_pkcs8_private': _raising('obj:Key', 'key')},
+        ensures=[('label-and-headers-select-decryption-and-decoder', decode_pem_private_post)],
+        raises={'KeyImportError': decode_pem_private_rejects,
+                'KeyEncryptionError': lambda c: z3.BoolVal(any(x['exc'] is not None
+                                                               for x in c.calls('_decode_openssh_private')))},
+        returns='obj:Key')
+
+
+decode_pem_private_specs = [_pem_private_spec(k) for k in ('plain', 'dek', 'dek-malformed')]
